@@ -6,7 +6,7 @@ from symx.files import SparseFile
 
 def mkfile(d, name=None):
     patches = {int(a): bytes.fromhex(h) for a, h in d.get("patches", [])}
-    return SparseFile(int(d["size"]), patches, seed=int(d.get("seed", 0)), name=name)
+    return SparseFile(int(d["size"]), patches, seed=int(d.get("seed", 0)), name=name, ascii=bool(d.get("ascii")))
 
 
 class RawStream:
@@ -567,3 +567,42 @@ class _VmxProbe:
 @register("vmx_unlock")
 def open_vmx(files, opaque, p):
     return _VmxProbe(p)
+
+
+class _QcowMetaProbe:
+    def __init__(self, files, p):
+        self.files, self.p = files, p
+
+    def meta(self):
+        from dissect.hypervisor.disk import qcow2
+
+        q = qcow2.QCow2(self.files["img"], backing_file=qcow2.ALLOW_NO_BACKING_FILE if self.p.get("backing") else None)
+
+        def hx(v):
+            if v is None:
+                return None
+            return (v.encode() if isinstance(v, str) else bytes(v)).hex()
+
+        return dict(backing_format=q.backing_format, feature_table=hx(q.feature_table), image_data_file=hx(q.image_data_file),
+                    unknown=[[e.magic, d.hex()] for e, d in q.unknown_extensions], auto_backing_file=hx(q.auto_backing_file))
+
+    def snapshots(self):
+        import types
+
+        from dissect.hypervisor.disk import qcow2
+
+        q = qcow2.QCow2.__new__(qcow2.QCow2)
+        q.fh = self.files["img"]
+        q.header = types.SimpleNamespace(snapshots_offset=self.p["snapshots_offset"], nb_snapshots=self.p["n"])
+        return [[s.header.l1_table_offset, s.header.l1_size, s.id_str.encode().hex(), s.name.encode().hex()]
+                for s in qcow2.QCow2.snapshots.func(q)]
+
+
+@register("qcow2_meta")
+def open_qcow2_meta(files, opaque, p):
+    return _QcowMetaProbe(files, p)
+
+
+@register("qcow2_snapshots")
+def open_qcow2_snaps(files, opaque, p):
+    return _QcowMetaProbe(files, p)
